@@ -256,6 +256,13 @@ type Sched struct {
 // S is the running execution (nil outside Run).
 var S *Sched
 
+// epoch counts executions; state that lives in package-level variables of instrumented code and is owned by a
+// shim (vsync.Pool) is reset when it changes, so that every execution starts from the same state.
+var runEpoch uint64
+
+// Epoch returns the number of the current execution.
+func Epoch() uint64 { return runEpoch }
+
 var runMu sync.Mutex
 
 // Active reports whether an execution is running and not being torn down.
@@ -295,6 +302,7 @@ func Run(cfg Config, main func()) *Result {
 		s.trace = make([]string, cfg.Trace)
 	}
 	S = s
+	runEpoch++
 	mt := s.newThread("main", false, main)
 	s.cur = mt
 	mt.wake <- struct{}{}
